@@ -103,7 +103,7 @@ func cases(c *eng.Ctx) []*Spec {
 	rng := rand.New(rand.NewSource(c.Seed*7919 + 14))
 	var out []*Spec
 	n := c.Pick(200, 5000)
-	hosts := []string{"provider", "scope", "nested"}
+	hosts := []string{"provider", "scope", "nested", "root"}
 	type mk struct {
 		mode  string
 		kinds []string
